@@ -190,6 +190,7 @@ PROPS = {
             R("h26", "c08", "TestC08_LongSync", (600, 4, 400), (40000, 16, 10000)),
             R("h26", "c08", "TestC08_Rounds", (800, 8, 400), (80000, 16, 10000)),
             R("h26", "c08", "TestC08_LastKnown", (300, 4, 400), (20000, 16, 10000)),
+            R("h26", "c08", "TestC08_BehindExplicit", (400, 8, 400), (20000, 16, 10000)),
         ],
     },
     "C14": {
